@@ -11,6 +11,8 @@
 #include <iostream>
 #include <map>
 #include <set>
+#include <fenv.h>
+#include <signal.h>
 #include <sstream>
 #include <string>
 #include <sys/wait.h>
@@ -71,6 +73,8 @@ static void c13_strings(const std::vector<std::string>& cat, int maxsites, int m
       for (int i = 0; i <= L; i++) for (char c : {'_', 'x', '1'}) { std::string s = n; s.insert(i, 1, c); add(s); }
       for (int i = 0; i < L; i++) if (n[i] == '_') { std::string s = n; s[i] = '-'; add(s); s[i] = ' '; add(s); }
       add(""); add("-"); add(" "); add("- -");
+      // every single-bit flip of every character (a comparison that masks one bit -- the ASCII case bit, say -- for non-letters too)
+      for (int i = 0; i < L; i++) for (int bit = 0; bit < 8; bit++) { std::string t2 = n; t2[i] = (char)((unsigned char)t2[i] ^ (1u << bit)); add(t2); }
       // paddings of length <= 3 over {blank, dash, c} that contain the special byte c at least once, behind and in front of the name
       // (a byte that is not a separator makes the string a non-name wherever it stands, also inside a run of separators)
       for (char c : {'\t', '\n', '\r', '\0', '\x7f'}) {
@@ -192,7 +196,7 @@ static int mode_c15(const Caps& D, const Caps& P, int tier) {
   // documented set can no longer be the fail-safe stub for every parameter assignment, whatever it returns at the defaults
   for (auto& sol : D.order) if (P.D.count(sol)) for (auto& key : D.D.at(sol)) if (!P.D.at(sol).count(key)) { n_valid++;
     viol("C15", sol + ": the library overrides masa_eval_" + key + " although it is outside the documented capability set of this solution (the -1.33 contract cannot hold for all parameters)", "\"solution\":\"" + sol + "\",\"evaluator\":\"" + key + "\",\"kind\":\"undocumented-override\""); }
-  for (int ctx = 0; ctx < 3; ctx++) for (auto& sol : D.order) {
+  for (int ctx = 0; ctx < 4; ctx++) for (auto& sol : D.order) {
     fflush(OUT);
     pid_t pid = fork();
     if (pid == 0) {
@@ -201,7 +205,9 @@ static int mode_c15(const Caps& D, const Caps& P, int tier) {
       capture([&] { auto ctx_run = [&](auto tag) { typedef decltype(tag) S;
         if (ctx == 0) masa_init<S>("s", sol);
         else if (ctx == 1) { masa_init<S>("s", sol); masa_init<S>("y", "heateq_1d_steady_const"); masa_select_mms<S>("s"); masa_init<S>("y", "euler_3d"); masa_select_mms<S>("s"); }
-        else { masa_init<S>("y", "navierstokes_4d_compressible_powerlaw"); masa_init<S>("s", sol); masa_select_mms<S>("y"); masa_select_mms<S>("s"); } };
+        else if (ctx == 2) { masa_init<S>("y", "navierstokes_4d_compressible_powerlaw"); masa_init<S>("s", sol); masa_select_mms<S>("y"); masa_select_mms<S>("s"); }
+        // 3: another instance went through its own diagnostics first (a vector-owning solution with an emptied vector: sanity_check reports it)
+        else { masa_init<S>("y", "radiation_integrated_intensity"); std::vector<S> none; masa_set_vec<S>("vec_mean", none); masa_sanity_check<S>(); masa_display_param<S>(); masa_init<S>("s", sol); } };
         ctx_run((double)0); ctx_run((LD)0); });
       { std::string a, b; masa_get_name<double>(&a); masa_get_name<LD>(&b); if (a != sol || b != sol) viol("C15", sol + ": context " + std::to_string(ctx) + " does not leave this solution selected (get_name: " + a + " / " + b + ")", "\"solution\":\"" + sol + "\",\"context\":" + std::to_string(ctx)); }
       std::string snap0 = snapshot_params();
@@ -320,6 +326,18 @@ static int mode_c14(const Caps& D, const Caps& P) {
         }
       }
     }
+  }
+  // hosts that trap floating-point exceptions (Fortran codes built with -ffpe-trap, feenableexcept): listing the catalogue and
+  // initialising any entry must not raise an invalid/divide-by-zero/overflow exception (what the evaluators do internally is not part of C14)
+  for (int ld = 0; ld < 2; ld++) for (size_t k = 0; k <= cd.size(); k++) {
+    fflush(OUT); pid_t pid = fork();
+    if (pid == 0) { capture([&] { feenableexcept(FE_INVALID | FE_DIVBYZERO | FE_OVERFLOW);
+        if (k == cd.size()) { if (ld) masa_printid<LD>(); else masa_printid<double>(); }
+        else { if (ld) masa_init<LD>("t", cd[k]); else masa_init<double>("t", cd[k]); } });
+      _exit(0); }
+    int st; waitpid(pid, &st, 0); n_trans++; n_valid++; n_states++;
+    if (!WIFEXITED(st) || WEXITSTATUS(st) != 0) { std::string what = k == cd.size() ? std::string("masa_printid") : "masa_init(\"" + cd[k] + "\")";
+      viol("C14", what + " (" + (ld ? "long double" : "double") + ") with floating-point traps enabled: process killed (wait status " + std::to_string(st) + (WIFSIGNALED(st) && WTERMSIG(st) == SIGFPE ? ", SIGFPE" : "") + ")", "\"name\":\"" + (k == cd.size() ? std::string("printid") : cd[k]) + "\",\"kind\":\"fp-trap\""); }
   }
   for (auto& kv : P.D) if (!seen.count(kv.first)) viol("C14", "solution " + kv.first + " of the pinned catalogue is no longer listed by masa_printid", "\"name\":\"" + kv.first + "\"");
   fprintf(OUT, "{\"k\":\"c14\",\"catalogue\":%zu}\n", cd.size());
